@@ -234,7 +234,7 @@ func (r *Run) Violation(key, what string, replay interface{}) {
 func (r *Run) Violations() int {
 	r.mu.Lock()
 	defer r.mu.Unlock()
-	return r.violations
+	return r.violations + len(r.childViols)
 }
 
 // Finish writes the evidence file and returns the process exit code.
